@@ -61,10 +61,12 @@ static bool avoidEnv(const char* name)
 static const bool AVOID_NEGATIVE_NPAR   = false || avoidEnv("npar");      // requests rejected by st_model_auto_count (exception instead of error)
 static const bool AVOID_EXOTIC_TYPES    = false || avoidEnv("exotic");    // MARKOV / sphere-only structures offered by CovFactory::getCovList in R^n
 static const bool AVOID_FLAG_INTRINSIC  = false || avoidEnv("intrinsic"); // Option_VarioFit::setFlagIntrinsic(true): st_sill_fitting_intrinsic indexes the never-sized RECINT.sill1
-// The bivariate Goulard-under-constraints (constant total sill, nvar>1) costs minutes per fit with the default
-// maxiter=1000 (measured: 110 s user time in the release build for 2 variables x 3 structures x 4 directions);
-// the generator therefore draws maxiter <= 30 for that class so that the class is still exercised.
-static const int CONSTSILL_MULTIVAR_MAXITER = 30;
+// Goulard under constraints (constant total sill) costs minutes to hours per fit with the default maxiter=1000
+// whenever st_optimize_under_constraints is entered: every model evaluation of foxleg runs up to maxiter sweeps of
+// st_minimize_P4 (O(npadir^2) each). Measured: 110 s user time in the release build, 12.5 min under ASan for
+// 2 variables x 3 structures x 4 directions; also seen with 1 variable x 2 structures. The generator therefore
+// draws maxiter <= 30 for that class so that the class is still exercised within the case budget.
+static const int CONSTSILL_MAXITER = 30;
 
 // ------------------------------------------------------------------------------------------------
 // structure catalogue (what the library itself says about each type, asked once through the public API)
@@ -496,7 +498,7 @@ static void drawConstraints(Rng& r, Cfg& g)
     // constant total sill (Goulard under constraints)
     g.constSill = r.coin(0.6) ? 1. : r.loguni(0.1, 10.);
     g.consClass = "constsill";
-    if (g.nvar > 1) g.maxiter = std::min(g.maxiter, CONSTSILL_MULTIVAR_MAXITER);
+    g.maxiter = std::min(g.maxiter, CONSTSILL_MAXITER);
     return;
   }
   g.consClass = "items";
@@ -596,7 +598,7 @@ static void drawOptions(Rng& r, Cfg& g)
   g.lockNo3d      = r.coin(0.10);
   g.lockIso2d     = r.coin(0.10);
   g.keepIntstr    = r.coin(0.10);
-  g.flagIntrinsic = r.coin(0.06);
+  g.flagIntrinsic = r.coin(0.02);
   if (AVOID_FLAG_INTRINSIC) g.flagIntrinsic = false;
   g.goulard       = !r.coin(0.12);
   // Option_AutoFit
@@ -630,7 +632,7 @@ static Cfg drawCfg(Rng& r, bool thorough)
   drawConstraints(r, g);
   g.useCovIndices = r.coin(0.3);
   // rejected requests (the library's own preconditions, each with a messerr in model_auto.cpp)
-  if (g.expectFail.empty() && !hasExotic(g) && g.src != SRC_VMAP)
+  if (g.expectFail.empty() && !hasExotic(g))
   {
     bool sillItems = false;
     for (auto& s : g.cons) sillItems |= (s.elem == EConsElem::SILL);
@@ -644,7 +646,7 @@ static Cfg drawCfg(Rng& r, bool thorough)
       for (auto& t : g.types) hasInt |= (tinfo(t).minOrder == 0);
       if (!hasInt) { if (AVOID_NEGATIVE_NPAR) g.keepIntstr = false; else g.expectFail = "keepintstr-no-intrinsic-structure"; }
     }
-    if (g.expectFail.empty() && !FFFF(g.constSill) && !g.goulard)
+    if (g.expectFail.empty() && !FFFF(g.constSill) && !g.goulard && !(g.src == SRC_VMAP && g.nvar > 1))
       g.expectFail = "constsill-goulard-off"; // "When Constraints on the sum of Sills are defined The Goulard option must be switched ON"
     (void)sillItems;
   }
@@ -785,7 +787,14 @@ static void validateModel(Ctx& c, const Cfg& g, Model* m, const std::string& ep,
     if (s.elem == EConsElem::RANGE) got = cv->getRange(s.iv1);
     if (s.elem == EConsElem::PARAM) got = cv->getParam();
     if (s.elem == EConsElem::SILL) got = cv->getSill(s.iv1, s.iv2);
-    if (s.elem == EConsElem::ANGLE) got = cv->getAnisoAngles()[s.iv1];
+    if (s.elem == EConsElem::ANGLE)
+    {
+      got = cv->getAnisoAngles()[s.iv1];
+      // the rotation of an isotropic structure is immaterial (and reported as 0 by the library)
+      double aniso = 0;
+      for (int d = 1; d < g.ndim; d++) aniso = std::max(aniso, std::fabs(cv->getRange(d) - cv->getRange(0)) / std::fabs(cv->getRange(0)));
+      if (!(aniso > 1e-9)) { c.skip("cons:angle-of-isotropic-structure"); continue; }
+    }
     double scale = std::max(std::fabs(s.value), std::fabs(got));
     double tol   = 1e-9 * scale + 1e-12;
     if (s.elem == EConsElem::ANGLE) tol = 1e-6;
@@ -857,7 +866,7 @@ static void validateModel(Ctx& c, const Cfg& g, Model* m, const std::string& ep,
         det += fmt("structure %d: %g vs %g; ", k, cv->getRange(0), cv->getRange(1));
       }
     }
-    c.truth("opt-iso2d", "C17:opt:lockIso2d-but-anisotropic-in-2D:ndim=" + std::to_string(g.ndim) + ":ndir=" + std::to_string(g.ndir), ok, det);
+    c.truth("opt-iso2d", "C17:opt:lockIso2d-ignored:ndim=3", ok, det);
   }
   // "auth_rotation: When True, the inference looks for a possible rotation" => false: no rotation is inferred, hence
   // all structures carry one and the same (not fitted) rotation; when the first variogram direction is the X axis
@@ -1028,6 +1037,7 @@ static void run_case(Rng& r, Ctx& c)
                g.nvar, g.ndir, PATN[g.patho], g.types.size(), g.consClass.c_str(), optmask.c_str(), g.wmode,
                g.expectFail.c_str()));
   c.puts("types", typesKey(g));
+  if (c.verbose) fprintf(stderr, "CFG %s types=%s maxiter=%d tolsigma=%g L=%g\n", c.sig.c_str(), typesKey(g).c_str(), g.maxiter, g.tolsigma, g.L);
   c.puts("options(noreduce,aniso,rot,samerot,rot2d,no3d,iso2d,goulard,keepint,intrinsic)", optmask);
   c.putn("maxiter", g.maxiter);
   c.putn("L", g.L);
@@ -1038,6 +1048,7 @@ static void run_case(Rng& r, Ctx& c)
                 std::string(s.type.getKey()).c_str(), s.value);
     if (!FFFF(g.constSill)) cs += fmt("constantSill=%.6g", g.constSill);
     c.puts("constraints", cs);
+    if (c.verbose) fprintf(stderr, "CFG constraints: %s\n", cs.c_str());
   }
 
   // ---- experimental data
@@ -1126,7 +1137,12 @@ static void run_case(Rng& r, Ctx& c)
   catch (const std::exception& e)
   {
     // The documented failure protocol is the return code ("@return 0 if no error, 1 otherwise").
-    std::string cls = g.expectFail.empty() ? std::string("valid-request:patho=") + PATN[g.patho] : g.expectFail;
+    // for valid requests the class is the (path- and line-free) message of the exception
+    std::string what = e.what();
+    size_t at = what.find(": ");
+    if (what.rfind("/", 0) == 0 && at != std::string::npos) what = what.substr(at + 2);
+    for (auto& ch : what) if (ch == ' ' || ch == ':') ch = '-';
+    std::string cls = g.expectFail.empty() ? "valid-request:" + what.substr(0, 48) : g.expectFail;
     if (g.expectFail.empty())
     {
       if (hasExotic(g)) cls = "exotic-type";
